@@ -288,7 +288,8 @@ pub fn run() {
         "cases = generated diagrams (families: arbitrary, graph-like, gadget-rich, circuit-derived, exhaustive tiny); each is run through 13 simplification procedures x 2 backends (evaluations counts these triples); a diagram is non-trivial when it has >= 2 spiders and at least one rewrite fired (hook H2); distinct = distinct diagram descriptions (64-bit hash)",
     );
     c.assume("independent evaluator O2 (harness/src/oracle/eval.rs) and exact ring O1 are correct (self-tested at start, cross-checked against O3)");
-    c.assume("termination is decided in bounded-progress form: rewrite budget 10^4 + 50*(V+E)^2 per call");
+    c.assume("termination is decided in bounded-progress form: rewrite budget 10^4 + 50*(V+E)^2 per call; a case (26 calls on one diagram, normally microseconds) whose thread burns >= 60 CPU seconds before the 120 s watchdog fires is reported as non-termination as well");
+    crate::fw::set_hang_is_violation(true);
     let (ms, n_rand) = t.pick((9usize, 3000usize), (13usize, 60_000usize));
     par_cases("arbitrary-exact", n_rand, move |r, i| {
         let d = gen_random(r, &DiagParams { max_spiders: ms, max_bnd: 4, pool: PhasePool::Exact, graph_like: false, bare_wires: true, var_prob: 0.0 });
